@@ -256,7 +256,8 @@ TraceSpec == TraceInit /\ [][TraceNext]_tvars
 TraceAccepted ==
     LET d == TLCGet("stats").diameter IN
     /\ IF d - 1 = Len(Trace) THEN TRUE ELSE Print(<<"TRACE_REJECTED_AT", d, Len(Trace)>>, FALSE)
-    /\ \A i \in 1..Len(TLCGet(4)) : PrintT(<<"DRIFT_AT", TLCGet(4)[i][1], TLCGet(4)[i][2], TLCGet(4)[i][3]>>)
+    \* (one string per record: TLC breaks long tuples over several lines)
+    /\ \A i \in 1..Len(TLCGet(4)) : PrintT("DRIFT_AT " \o ToString(TLCGet(4)[i][1]) \o " " \o TLCGet(4)[i][2] \o " " \o ToString(TLCGet(4)[i][3]))
     /\ PrintT(<<"DRIFT", Len(TLCGet(4))>>)
     /\ \A i \in 1..Len(TLCGet(3)) : PrintT(<<"CLAUSE_BROKEN", TLCGet(3)[i][1], TLCGet(3)[i][2]>>)
     /\ TLCGet(3) = <<>>
